@@ -344,7 +344,6 @@ func getCursorIndex(edges []Edge, cursor string) int {
 // It also implements part of the hasNextPage and hasPrevPage algorithm by returning if there are
 // elements after or before the arguments.
 func applyCursorsToAllEdges(edges []Edge, before *string, after *string) ([]Edge, bool, bool) {
-	edgeCount := len(edges)
 	elemsAfter := false
 	elemsBefore := false
 
@@ -361,10 +360,11 @@ func applyCursorsToAllEdges(edges []Edge, before *string, after *string) ([]Edge
 	if before != nil {
 		i := getCursorIndex(edges, *before)
 		if i != -1 {
-			edges = edges[:i]
-			if i != edgeCount-1 {
+			// i indexes edges as they are now, after a possible after: cut above.
+			if i != len(edges)-1 {
 				elemsAfter = true
 			}
+			edges = edges[:i]
 		}
 
 	}
